@@ -15,6 +15,7 @@ import os
 import time
 
 import vlib
+import pool_goals
 
 TAGS = {"C02": "C02:", "C03": "C03:", "C04": "C04:", "C05": "C05:", "C06": "C06:", "C14": "C14:", "C15": "C15:"}
 
@@ -251,6 +252,13 @@ def run(pid, tier, seed, t0, asbuilt=None):
     # ---- 3. replay on the real pool
     rtrace = os.path.join(d, "replay-trace.ndjson")
     rep = json.loads(vlib.run_harness("pool", ["replay", "--in", sched, "--out", rtrace, "--uris", ",".join(uris)]))
+    # ---- 3b. goal-directed behaviours (MC_PoolGoals.tla: TLC's shortest witnesses of 31 design corners)
+    goals, ginfo = pool_goals.load_or_generate(pid)
+    gsched = os.path.join(d, "goals.ndjson")
+    vlib.write_ndjson(gsched, goals)
+    gtrace = os.path.join(d, "goals-trace.ndjson")
+    grep_ = json.loads(vlib.run_harness("pool", ["replay", "--in", gsched, "--out", gtrace, "--uris", "http://a.test"]))
+
     # ---- 4. random walks on the real pool
     wtraces = []
     wk = {"runs": 0, "steps": 0, "panics": 0, "actions": {}}
@@ -268,7 +276,7 @@ def run(pid, tier, seed, t0, asbuilt=None):
     all_viol = []
     nrec = 0
     samples = []
-    for path in [rtrace] + [w for w, _ in wtraces]:
+    for path in [rtrace, gtrace] + [w for w, _ in wtraces]:
         viol, r = monitor(pid, path)
         trace = vlib.read_ndjson(path)
         nrec += len(trace)
@@ -337,7 +345,9 @@ def run(pid, tier, seed, t0, asbuilt=None):
     never = sorted(a for a, (dist, taken) in cov.items() if taken == 0)
     coverage = {
         "states": mc.distinct, "transitions": mc.generated, "depth": mc.depth,
-        "traces_validated_against_impl": rep["behaviours"] + wk["runs"],
+        "traces_validated_against_impl": rep["behaviours"] + grep_["behaviours"] + wk["runs"],
+        "goal_directed": {"behaviours": grep_["behaviours"], "conformant": grep_["conformant"], "drifted": grep_["drifted"],
+                          "steps": grep_["steps"], "source": ginfo},
         "samples": samples,
         "evaluations": nrec, "distinct_nontrivial": rep["behaviours"] + wk["runs"],
         "rule": "one evaluation = one recorded real step with all clauses of the property evaluated by TLC (PoolObs.tla); "
@@ -350,7 +360,7 @@ def run(pid, tier, seed, t0, asbuilt=None):
         "actions_never_taken": never,
         "replay": {"behaviours": rep["behaviours"], "conformant": rep["conformant"], "drifted": rep["drifted"], "steps": rep["steps"],
                    "drift_kinds": rep["drift_kinds"], "drift_samples": rep["drift_samples"]},
-        "drift": rep["drifted"] + (tv["runs_rejected"] if tv else 0),
+        "drift": rep["drifted"] + grep_["drifted"] + (tv["runs_rejected"] if tv else 0),
         "walk_trace_validation": tv,
         "key_level": keys,
         "walk": wk,
